@@ -158,6 +158,7 @@ type vpIdP struct {
 	epCount   map[string]int
 	faults    map[string]*vpFault // endpoint kind -> fault
 	noUserinfo bool
+	users      map[string]vpUser // per-IdP users (fall back to vpUsers)
 
 	// behaviour knobs
 	nonceMode      string                               // echo | other | empty | absent | raw | replay
@@ -194,6 +195,22 @@ func vpNewIdP(name string) *vpIdP {
 	mux.HandleFunc("/logout", p.hLogout)
 	p.srv = httptest.NewServer(mux)
 	return p
+}
+
+func (p *vpIdP) user(name string) vpUser {
+	if u, ok := p.users[name]; ok {
+		return u
+	}
+	return vpUsers[name]
+}
+
+func (p *vpIdP) addUser(name string, u vpUser) {
+	p.mu.Lock()
+	if p.users == nil {
+		p.users = map[string]vpUser{}
+	}
+	p.users[name] = u
+	p.mu.Unlock()
 }
 
 func (p *vpIdP) close()         { p.srv.CloseClientConnections(); p.srv.Close() }
@@ -405,7 +422,7 @@ func (p *vpIdP) hToken(rw http.ResponseWriter, r *http.Request) {
 // writeTokens issues a token set for the lineage (p.mu held).
 func (p *vpIdP) writeTokens(rw http.ResponseWriter, kind string, lid string, lin *vpLineage) {
 	lin.Gen++
-	u := vpUsers[lin.User]
+	u := p.user(lin.User)
 	at := fmt.Sprintf("at-%s-%d-%s", lin.User, lin.Gen, vpRandHex(4))
 	lin.AccessTok = at
 	p.atIndex[at] = lin.User
@@ -478,7 +495,7 @@ func (p *vpIdP) sign(claims map[string]interface{}) string {
 
 // mintIDToken produces a token outside any flow (bearer tokens).
 func (p *vpIdP) mintIDToken(user string, mut func(c map[string]interface{}), alg string) string {
-	u := vpUsers[user]
+	u := p.user(user)
 	now := time.Now()
 	claims := map[string]interface{}{
 		"iss": p.issuer(), "sub": u.Sub, "aud": vpClientID,
@@ -516,7 +533,7 @@ func (p *vpIdP) hUserinfo(rw http.ResponseWriter, r *http.Request) {
 		rw.WriteHeader(401)
 		return
 	}
-	u := vpUsers[user]
+	u := p.user(user)
 	out := map[string]interface{}{"sub": u.Sub, "email": u.Email, "email_verified": true, "preferred_username": u.Username, "groups": u.Groups,
 		"profile_only": "from-profile"}
 	for k, v := range p.userinfoClaims {
